@@ -79,6 +79,9 @@ def run_workers(prop, tier, seed, nshards, watchdog_s, replay=None):
                     env[k] = str(renv[k])
                 elif k in ('LC_ALL', 'LANG') and renv:
                     env.pop(k, None)
+            if renv.get('shard_class') == 1:
+                env['RV_TMPDIR_OTHER_DEVICE'] = '1'
+                env['RV_WARNINGS_AS_ERRORS'] = '1'
         procs.append((subprocess.Popen(cmd, cwd=VERIF, env=env, stdout=log, stderr=subprocess.STDOUT), out, log))
     results, problems = [], []
     deadline = time.time() + watchdog_s
